@@ -225,6 +225,20 @@ func (s *state) CheckBody(ctx context.Context, hdr textproto.Header, _ buffer.Bu
 	}
 	authName := s.msgMeta.Conn.AuthUser
 
+	// Get returns only the first field; a repeated From or Sender field
+	// (RFC 5322 allows at most one of each) would escape the check.
+	for _, key := range [...]string{"From", "Sender"} {
+		if len(hdr.Values(key)) > 1 {
+			return s.c.errAction.Apply(module.CheckResult{
+				Reason: &exterrors.SMTPError{
+					Code:         550,
+					EnhancedCode: exterrors.EnhancedCode{5, 7, 0},
+					Message:      "Multiple " + key + " header fields are not allowed",
+					CheckName:    modName,
+				}})
+		}
+	}
+
 	fromHdr := hdr.Get("From")
 	if fromHdr == "" {
 		return s.c.errAction.Apply(module.CheckResult{
